@@ -16,23 +16,79 @@ import exec_common
 import vlib
 
 
+TOOLCHAIN = "1.93.0"          # /repo/rust-toolchain.toml: the only installed toolchain with the wasm32 target
+TARGET = os.path.join(vlib.HARNESS, "target-wasm")   # own target dir: a different rustc must not thrash the shared one
+
+
 def force_wasm_rebuild():
     """upgradable-executor/build.rs only reruns when build.rs itself changes, so an edited executor would keep a
     stale wasm blob: drop the build-script outputs, the inner `cargo install` is incremental through its cache."""
-    tgt = os.path.join(vlib.HARNESS, "target", "release")
+    tgt = os.path.join(TARGET, "release")
     for d in glob.glob(os.path.join(tgt, "build", "fuel-core-upgradable-executor-*")):
         if os.path.exists(os.path.join(d, "output")) or os.path.exists(os.path.join(d, "out")):
             shutil.rmtree(d, ignore_errors=True)
     for d in glob.glob(os.path.join(tgt, ".fingerprint", "fuel-core-upgradable-executor-*")):
         if any(n.startswith("run-build-script") for n in os.listdir(d)):
             shutil.rmtree(d, ignore_errors=True)
+    # The inner `cargo install` keeps ONE set of wasm32 artifacts of the fuel-core crates whatever checkout they
+    # come from (same metadata hash for /repo and for a scratch worktree) and judged a blob built from a mutated
+    # worktree fresh for /repo.  When the checkout changes, drop the fuel-core part of that cache (third-party
+    # wasm32 crates stay).
+    marker = os.path.join(TARGET, "last-checkout")
+    here = os.path.realpath(vlib.REPO)
+    last = open(marker).read().strip() if os.path.exists(marker) else ""
+    if last != here:
+        inner = os.path.join(tgt, "fuel-core-upgradable-executor-cache", "wasm32-unknown-unknown", "release")
+        for pat in (".fingerprint/fuel-core-*", "deps/fuel_core_*", "deps/libfuel_core_*", "fuel-core-wasm-executor*",
+                    "fuel_core_wasm_executor*"):
+            for f in glob.glob(os.path.join(inner, pat)):
+                shutil.rmtree(f, ignore_errors=True) if os.path.isdir(f) else os.remove(f)
+    os.makedirs(TARGET, exist_ok=True)
+    open(marker, "w").write(here)
+
+
+def build_wasm_harness(timeout=10000):
+    """vlib.cargo_build with the repository's toolchain and an own target dir.  CARGO_NET_OFFLINE must be in the
+    environment: the build script's inner `cargo install --target wasm32-unknown-unknown` does not inherit --offline."""
+    import subprocess
+    import time
+    lock_dst = os.path.join(vlib.HARNESS, "Cargo.lock")
+    tmp = lock_dst + ".%d.tmp" % os.getpid()
+    shutil.copy(os.path.join(vlib.REPO, "Cargo.lock"), tmp)
+    os.replace(tmp, lock_dst)
+    cmd = ["cargo", "build", "--offline", "--release", "-p", "h-exec-wasm"]
+    e = dict(os.environ, CARGO_NET_OFFLINE="true", RUSTUP_TOOLCHAIN=TOOLCHAIN, CARGO_TARGET_DIR=TARGET)
+    cwd = vlib.HARNESS
+    if os.path.realpath(vlib.REPO) != "/repo":
+        # another checkout (scratch worktree with a mutation).  vlib's `paths` override cannot be used here: the
+        # wasm executor depends on fuel-core-types twice (current + 0.35 under another name) and an override by
+        # package name collapses both.  Build a copy of the harness workspace whose path dependencies point at
+        # that checkout; the target dir is shared, so third-party crates are reused.
+        cwd = os.path.join(vlib.SCRATCH or vlib.WORK, "harness-wasm")
+        shutil.rmtree(cwd, ignore_errors=True)
+        os.makedirs(os.path.join(cwd, "crates"))
+        for f in ("Cargo.toml", "Cargo.lock"):
+            shutil.copy(os.path.join(vlib.HARNESS, f), os.path.join(cwd, f))
+        for c in ("h-common", "h-exec", "h-exec-wasm"):
+            shutil.copytree(os.path.join(vlib.HARNESS, "crates", c), os.path.join(cwd, "crates", c))
+            mf = os.path.join(cwd, "crates", c, "Cargo.toml")
+            txt = open(mf).read().replace('"/repo/', '"%s/' % os.path.realpath(vlib.REPO))
+            open(mf, "w").write(txt)
+    t0 = time.time()
+    p = subprocess.run(["timeout", str(timeout)] + cmd, cwd=cwd, env=e, stdout=subprocess.PIPE,
+                       stderr=subprocess.STDOUT, text=True, errors="replace")
+    if p.returncode != 0:
+        raise vlib.ToolError("cargo build -p h-exec-wasm failed (rc=%s)\n%s" % (
+            p.returncode, "\n".join(p.stdout.splitlines()[-40:])[-4000:]))
+    vlib.log("[build] h-exec-wasm ok in %.1fs" % (time.time() - t0))
+    return os.path.join(TARGET, "release")
 
 
 def run(rep, tier, args):
     rep.assumptions += exec_common.ASSUMPTIONS + [
         "both strategies run in one process on the same in-memory store; the wasm blob is the one built from the "
         "current tree by the upgradable executor's build script (no uploaded / historical bytecode versions)",
-        "equality is established on the explored blocks only (quick ~400 produce + 800 validate calls per strategy)",
+        "equality is established on the explored blocks only (quick ~100 blocks, thorough ~1000 blocks per primary strategy, each produced once and validated 2+ times by both)",
     ]
     cfg = "Trace_Exec_C07.cfg"
     if args.replay:
@@ -43,16 +99,16 @@ def run(rep, tier, args):
     if mc.violated:
         vlib.log("model violates %s; the implementation trace decides" % mc.violated)
     force_wasm_rebuild()
-    hbin = os.path.join(vlib.cargo_build("h-exec-wasm", timeout=10000), "h-exec-wasm")
+    hbin = os.path.join(build_wasm_harness(), "h-exec-wasm")
     wd = vlib.workdir("C07")
     wp, walks, sim = exec_common.sim_walks(tier, wd, "C07")
     rep.add_mc(sim, "Sim_Exec")
-    nb2 = 12 if tier == "quick" else 300
+    nb2 = 8 if tier == "quick" else 120
     with open(wp) as f:
         lines = f.readlines()[:nb2]
     with open(wp, "w") as f:
         f.writelines(lines)
-    n, blocks = (20, 6) if tier == "quick" else (170, 8)
+    n, blocks = (12, 6) if tier == "quick" else (70, 8)
     traces = []
     for primary in ("native", "wasm"):
         t2 = os.path.join(wd, "b2-%s.ndjson" % primary)
